@@ -191,6 +191,12 @@ class CoderState(object):
         """
         self.new_refvals = {}
 
+    def wait_for_qa_info(self):
+        """
+        Quality information follows, i.e. 222000. It begins with the first class 33 element.
+        """
+        self.status_qa_info_follows = QA_INFO_WAITING
+
     def cancel_all_back_references(self):
         self.back_referenced_descriptors = None
         self.bitmap = None
@@ -476,15 +482,7 @@ class Coder(object):
             self.process_associated_field(state, bit_operator, descriptor)
 
         # Handle class 33 codes for QA information follows 222000 operator
-        if X == 33:
-            if state.status_qa_info_follows == QA_INFO_WAITING:
-                state.status_qa_info_follows = QA_INFO_PROCESSING
-            # Add the link between the QA info and its corresponding descriptor
-            if state.status_qa_info_follows == QA_INFO_PROCESSING:
-                state.add_bitmap_link()
-        else:
-            if state.status_qa_info_follows == QA_INFO_PROCESSING:
-                state.status_qa_info_follows = QA_INFO_NA
+        self.update_qa_info_status(state, bit_operator, descriptor)
 
         # Now we can process the element normally
         if descriptor.unit == UNITS_STRING:
@@ -511,6 +509,27 @@ class Coder(object):
                 self.process_numeric_of_new_refval(state, bit_operator,
                                                    descriptor, nbits, scale_powered,
                                                    state.bsr_modifier.refval_factor)
+
+    def update_qa_info_status(self, state, bit_operator, descriptor):
+        """
+        Keep track of whether quality information follows (222000) for the given
+        element descriptor. Whether it does depends on the data, e.g. on how many
+        times a replication is executed, so it is a step of its own that a compiled
+        template can repeat at runtime.
+
+        :type state: CoderState
+        :param bit_operator:
+        :type descriptor: ElementDescriptor
+        """
+        if descriptor.X == 33:
+            if state.status_qa_info_follows == QA_INFO_WAITING:
+                state.status_qa_info_follows = QA_INFO_PROCESSING
+            # Add the link between the QA info and its corresponding descriptor
+            if state.status_qa_info_follows == QA_INFO_PROCESSING:
+                state.add_bitmap_link()
+        else:
+            if state.status_qa_info_follows == QA_INFO_PROCESSING:
+                state.status_qa_info_follows = QA_INFO_NA
 
     def process_fixed_replication_descriptor(self, state, bit_operator, descriptor):
         """
@@ -605,7 +624,7 @@ class Coder(object):
                 state.mark_back_reference_boundary()
                 self.process_constant(state, bit_operator, descriptor, 0)
                 if operator_code == 222:
-                    state.status_qa_info_follows = QA_INFO_WAITING
+                    state.wait_for_qa_info()
             else:  # 255 for markers (this does not apply to 222)
                 self.process_marker_operator_descriptor(state, bit_operator, descriptor)
 
